@@ -17,9 +17,10 @@ ROOT = build.ROOT
 class Result:
     """status: ok | inconclusive | violation.  nt_key: canonical text when the case is non-trivial (else None)."""
 
-    def __init__(self, status="ok", nt_key=None, classes=(), detail=None, sig=None, evals=1):
+    def __init__(self, status="ok", nt_key=None, classes=(), detail=None, sig=None, evals=1, kind=None):
         self.status, self.nt_key, self.classes, self.detail, self.sig = status, nt_key, list(classes), detail, sig
         self.evals = evals
+        self.kind = kind if kind is not None else (detail.get("what", "").split(":")[0] if isinstance(detail, dict) else None)
 
     @staticmethod
     def violation(detail, classes=(), nt_key=None):
@@ -107,7 +108,7 @@ def worker_main(args):
             break
         n = min(batch, ncases - done)
         test = settings(max_examples=n, database=None, deadline=None, derandomize=False,
-                        suppress_health_check=list(HealthCheck), phases=[Phase.generate, Phase.shrink],
+                        suppress_health_check=list(HealthCheck), phases=[Phase.generate],
                         report_multiple_bugs=False, print_blob=False)(
             hseed((seed * 1000003 + widx) * 100003 + bidx)(given(st.randoms(use_true_random=False))(one)))
         bidx += 1
@@ -208,6 +209,8 @@ def run_property(modname, tier, seed, replay=None, jobs=None):
                     if all(r.status == "violation" for r in again):
                         violations.append(rel)
     # ---- generated search
+    import shutil
+    shutil.rmtree(os.path.join(ROOT, ".work", "found", pid), ignore_errors=True)
     ncases, wall = mod.BUDGET[tier]
     jobs = jobs or min(16, os.cpu_count() or 4)
     if getattr(mod, "JOBS", None):
@@ -258,9 +261,11 @@ def run_property(modname, tier, seed, replay=None, jobs=None):
         if getattr(mod, "SHRINK", "script") == "script" and isinstance(case, dict) and "cmds" in case:
             from . import shrink as _shr
 
+            kind0 = again[0].kind
+
             def still(c, _e=None):
                 r = mod.check(c, ctx)
-                return r.status == "violation" and match_known(mod, known, c, r) is None
+                return r.status == "violation" and r.kind == kind0 and match_known(mod, known, c, r) is None
             try:
                 case = _shr.shrink(case, still)
             except Exception:
